@@ -1,0 +1,45 @@
+#pragma once
+// Verification hooks (compiled only with -DORATIO_VERIF). They observe, they never change behaviour:
+// with no callback installed every call is a null-pointer test.
+#ifdef ORATIO_VERIF
+
+#include "smt_export.h"
+#include "lit.h"
+#include <vector>
+
+namespace smt
+{
+  class sat_core;
+
+  namespace verif
+  {
+    enum origin
+    {
+      CONFLICT = 0,            // clause learnt by conflict analysis (about to be recorded)
+      THEORY_LEMMA = 1,        // clause a theory records to propagate a literal
+      THEORY_CONFLICT = 2,     // raw conflict clause produced by a theory above root level
+      NEXT = 3,                // negation of the current decisions, added by sat_core::next
+      THEORY_ROOT_CONFLICT = 4 // raw conflict clause produced by a theory at root level
+    };
+
+    struct hooks
+    {
+      void (*on_clause)(void *ctx, const sat_core &sat, const std::vector<lit> &clause, int origin) = nullptr;
+      void *ctx = nullptr;
+    };
+
+    SMT_EXPORT hooks &get_hooks() noexcept;
+
+    inline void notify(const sat_core &sat, const std::vector<lit> &clause, int origin)
+    {
+      hooks &h = get_hooks();
+      if (h.on_clause)
+        h.on_clause(h.ctx, sat, clause, origin);
+    }
+  } // namespace verif
+} // namespace smt
+
+#define ORATIO_VERIF_CLAUSE(sat, clause, origin) ::smt::verif::notify(sat, clause, origin)
+#else
+#define ORATIO_VERIF_CLAUSE(sat, clause, origin)
+#endif
